@@ -546,6 +546,21 @@ def obligations_cli(ctx, base_it, env):
                         stt = st_.t if I.is_sym(st_) else z3.IntVal(st_)
                         spt = sp_.t if I.is_sym(sp_) else z3.IntVal(sp_)
                         goal = z3.And(stt == last_addr - BASE, spt == stt + 1024, spt <= fl, fl % 1024 == 0, fl >= n, fl - n < 1024)
+                        # the write loop visits EVERY page of the padded image: the chunk offset is 0 in the first iteration, grows by a
+                        # page per iteration, and the first offset not visited is the padded length
+                        rng = p.notes.get('ranges', {}).get(loop[1])
+                        kv = p.notes.get('iters', {}).get(loop[1])
+                        if loop[0] == 'for' and rng is not None and kv is not None:
+                            lo_, hi_, st_k = rng
+                            Lz = lambda v: (v.t if I.is_sym(v) else z3.IntVal(int(v)))     # noqa: E731
+                            kt = Lz(kv)
+                            at = lambda e: z3.substitute(stt, (kt, e))                     # noqa: E731
+                            cover = z3.And(at(Lz(lo_)) == 0, at(kt + st_k) - stt == 1024,
+                                           z3.Implies(Lz(hi_) > Lz(lo_), at(Lz(lo_) + ((Lz(hi_) - Lz(lo_) + st_k - 1) / st_k) * st_k) == fl))
+                            ctx.add(Obligation('dfu.cli_main/path%d/C18-%s%d-write-loop-visits-every-page-of-the-padded-image' % (i, loop[0], loop[1]),
+                                               list(p.pc[:x[5]]), cover, 'INT', func='dfu.cli_main', kind='invariant', cover=False,
+                                               meta={'replay': ('dfu', {'props': ['C18']}), 'props': ['C18'],
+                                                     'what': 'the write loop does not visit every page of the zero-padded image (first / step / last page)'}))
                     ctx.add(Obligation('dfu.cli_main/path%d/C18-%s%d-chunk-is-the-page-of-the-padded-image-at-the-address-set' % (i, loop[0], loop[1]),
                                        list(p.pc[:x[5]]), goal, 'INT', func='dfu.cli_main', kind='effect', cover=False,
                                        meta={'replay': ('dfu', {'props': ['C18']}), 'props': ['C18'], 'unrecognised': z3.is_false(goal),
